@@ -90,7 +90,7 @@ def make_case(rng):
             frame = [kind, lo, hi]
     partition_only = fn in AGG and frame is None
     return {"fn": fn, "level": level, "ids": ids, "mt": mt, "rows": rows, "part": part, "order": [] if (partition_only or fn == "ratio_to_report") else order,
-            "dir": direction, "frame": frame, "n": rng.randint(1, 2), "permseed": rng.randrange(1 << 30)}
+            "dir": direction, "frame": frame, "n": rng.choice([0, 1, 1, 2, 3]), "permseed": rng.randrange(1 << 30)}
 
 
 def render(case):
